@@ -62,12 +62,53 @@ pub proof fn lemma_C06_close_keeps_index(o: Backend, s: Backend, uri: Uri)
         s.fixture_db.uses() == o.fixture_db.uses(), s.fixture_db.byfix() == o.fixture_db.byfix(),
         s.fixture_db.undeclared_fixtures == o.fixture_db.undeclared_fixtures, s.fixture_db.version() == o.fixture_db.version(),
 {}
-//@tags C19
+//@tags C19 C05 C04
 /// didOpen remembers the client's URI for the path BEFORE diagnostics are published (so the publication and later
-/// answers use the URI the client sent); didChange does not touch the URI cache
+/// answers use the URI the client sent); didChange does not touch the URI cache.
+/// v3: this IS lemma_opened_document_gets_its_own_uri of unit uri_glue (prelude/uri_l2.rs), instantiated with the cache
+/// transition the real did_open body is proved to make (did_open_post: cache' == cache.insert(uri_to_path(uri), uri)):
+/// path_to_uri answers the document's path with the client's OWN URI; and under the cache invariant the invariant holds
+/// again and the server reads that answer back as the same path.
 pub proof fn lemma_C19_open_remembers_uri(o: Backend, s: Backend, uri: Uri, text: Seq<char>)
     requires did_open_post(o, s, uri, text), uri_path(uri) is Some
-    ensures s.uri_cache.m().contains_key(uri_path(uri)->0) && s.uri_cache.m()[uri_path(uri)->0] == uri
+    ensures s.uri_cache.m().contains_key(uri_path(uri)->0) && s.uri_cache.m()[uri_path(uri)->0] == uri,
+        path_uri(s.uri_cache, uri_path(uri)->0) == Some(uri),
+        cache_inv(o.uri_cache.m()) ==> cache_inv(s.uri_cache.m())
+            && uri_path(path_uri(s.uri_cache, uri_path(uri)->0)->0) == uri_path(uri),
+{
+    if cache_inv(o.uri_cache.m()) { lemma_opened_document_gets_its_own_uri(o.uri_cache.m(), uri, uri_path(uri)->0); }
+}
+//@tags C04 C05 C15 C19
+/// v3: cache_inv is an INVARIANT of the notification handlers (L2 reading, from the *_post relations proved on the real
+/// bodies): didOpen stores the URI under exactly uri_to_path(uri) (lemma_did_open_keeps_cache_invariant), didChange does
+/// not touch the cache, didClose removes one key (lemma_did_close_keeps_cache_invariant)
+pub proof fn lemma_cache_inv_is_invariant(o: Backend, s: Backend, uri: Uri, text: Seq<char>, changes: Seq<TextDocumentContentChangeEvent>)
+    requires cache_inv(o.uri_cache.m()),
+        did_open_post(o, s, uri, text) || did_change_post(o, s, uri, changes) || did_close_post(o, s, uri),
+    ensures cache_inv(s.uri_cache.m()),
+{
+    if uri_path(uri) is Some {
+        lemma_did_open_keeps_cache_invariant(o.uri_cache.m(), uri, uri_path(uri)->0);
+        lemma_did_close_keeps_cache_invariant(o.uri_cache.m(), uri_path(uri)->0);
+    }
+}
+//@tags C05 C04 C19
+/// v3: ... and an opened document KEEPS its own URI while OTHER documents (other paths) are opened, changed or closed
+/// (lemma_opened_document_keeps_its_uri of unit uri_glue on the transitions proved for the real bodies)
+pub proof fn lemma_C19_open_document_keeps_its_uri(o: Backend, s: Backend, p: PV, uri2: Uri, text: Seq<char>, changes: Seq<TextDocumentContentChangeEvent>)
+    requires o.uri_cache.m().contains_key(p), uri_path(uri2) != Some(p),
+        did_open_post(o, s, uri2, text) || did_change_post(o, s, uri2, changes) || did_close_post(o, s, uri2),
+    ensures path_uri(s.uri_cache, p) == Some(o.uri_cache.m()[p]), path_uri(s.uri_cache, p) == path_uri(o.uri_cache, p)
+{
+    if uri_path(uri2) is Some { lemma_opened_document_keeps_its_uri(o.uri_cache.m(), p, uri2, uri_path(uri2)->0); }
+}
+//@tags C05 C19
+/// v3, FINDING carried over from unit uri_glue to the handler level: a second didOpen of the SAME file under another URI
+/// (both read as one path) replaces the first document's URI -- later answers about the first document carry the second URI
+pub proof fn lemma_C05_FINDING_second_open_of_same_file_replaces_uri(o: Backend, s1: Backend, s2: Backend, u1: Uri, u2: Uri, t1: Seq<char>, t2: Seq<char>)
+    requires did_open_post(o, s1, u1, t1), did_open_post(s1, s2, u2, t2), uri_path(u1) is Some, uri_path(u1) == uri_path(u2), u1 != u2
+    ensures path_uri(s1.uri_cache, uri_path(u1)->0) == Some(u1), path_uri(s2.uri_cache, uri_path(u1)->0) == Some(u2),
+        path_uri(s2.uri_cache, uri_path(u1)->0) != Some(u1)
 {}
 
 // ---- vacuity guards: each of these must FAIL -------------------------------------------------------------------
@@ -104,3 +145,32 @@ proof fn canary_open_without_path_changes_state(o: Backend, s: Backend, uri: Uri
     requires did_open_post(o, s, uri, text), uri_path(uri) is None
     ensures s.fixture_db.version() != o.fixture_db.version()
 {}
+/// (v3) didOpen ESTABLISHES the cache invariant from nothing (it keeps it; an entry of another path may be foreign)
+proof fn canary_open_establishes_cache_inv(o: Backend, s: Backend, uri: Uri, text: Seq<char>)
+    requires did_open_post(o, s, uri, text), uri_path(uri) is Some
+    ensures cache_inv(s.uri_cache.m())
+{
+    if cache_inv(o.uri_cache.m()) { lemma_did_open_keeps_cache_invariant(o.uri_cache.m(), uri, uri_path(uri)->0); }
+}
+/// (v3) didClose of ANOTHER URI of the same file leaves the first document its URI (FALSE: one slot per path)
+proof fn canary_close_of_alias_keeps_own_uri(o: Backend, s: Backend, u1: Uri, u2: Uri)
+    requires did_close_post(o, s, u2), uri_path(u1) is Some, uri_path(u1) == uri_path(u2), u1 != u2,
+        path_uri(o.uri_cache, uri_path(u1)->0) == Some(u1)
+    ensures path_uri(s.uri_cache, uri_path(u1)->0) == Some(u1)
+{}
+/// (v3) after didOpen the answer for the path is the BUILT URI of the path (it is the client's own)
+proof fn canary_open_answers_with_built_uri(o: Backend, s: Backend, uri: Uri, text: Seq<char>)
+    requires did_open_post(o, s, uri, text), uri_path(uri) is Some, cache_inv(o.uri_cache.m())
+    ensures path_uri(s.uri_cache, uri_path(uri)->0) == uri_of_path(uri_path(uri)->0)
+{
+    lemma_opened_document_gets_its_own_uri(o.uri_cache.m(), uri, uri_path(uri)->0);
+}
+/// (v3) the hypotheses of lemma_C05_FINDING_second_open_of_same_file_replaces_uri are satisfiable (must FAIL)
+proof fn canary_hyp_second_open(o: Backend, s1: Backend, s2: Backend, u1: Uri, u2: Uri, t1: Seq<char>, t2: Seq<char>)
+    requires did_open_post(o, s1, u1, t1), did_open_post(s1, s2, u2, t2), uri_path(u1) is Some, uri_path(u1) == uri_path(u2), u1 != u2,
+        cache_inv(o.uri_cache.m())
+    ensures false
+{
+    lemma_did_open_keeps_cache_invariant(o.uri_cache.m(), u1, uri_path(u1)->0);
+    lemma_did_open_keeps_cache_invariant(s1.uri_cache.m(), u2, uri_path(u2)->0);
+}
